@@ -304,3 +304,41 @@ def wait_for_callback_order(chk, prefix="C14"):
         if ok:
             goal = z3.And(goal, ops.values_equal(s, sub[0].args[0], s.get(cb)["callback_id"]))
         chk.prove(f"{prefix}.wfcb.order", s.pc, goal, desc="wait_for_callback: create the callback -> submitter step (receives the callback id) -> result(), each through its own contract")
+
+
+def wait_for_callback_method(chk, prefix="C14"):
+    """DurableContext.wait_for_callback: ONE child context (one id of this context) whose body is wait_for_callback_handler(child ctx, submitter, name, config)"""
+    eng = Engine(hooks=CounterHooks())
+    P = eng.program
+    st = St()
+    ctx, parent, c0, state = make_ctx(eng, st)
+    q = DC + ".wait_for_callback"
+    chk.function(q)
+    name = fresh("str", "name")
+    cfg = st.alloc("opaque:WaitForCallbackConfig", {})
+    submitter = OpaqueFn("submitter")
+
+    def ricc(eng_, s, args, kwargs):
+        s.emit("run_in_child_context", func=args[1], name=args[2] if len(args) > 2 else kwargs.get("name"), extra=len(args) > 3 or bool(set(kwargs) - {"name"}))
+        child = s.alloc("opaque:DurableContext", {"__child__": True})
+        s.ghost["child"] = child
+        return eng_.call_value(args[1], [child], {}, s)
+
+    def handler(eng_, s, args, kwargs):
+        s.emit("wfc_handler", args=tuple(args), kwargs=dict(kwargs))
+        return [("val", fresh("any", "callback_payload"), s)]
+    eng.summaries[DC + ".run_in_child_context"] = ricc
+    eng.summaries["operation.callback.wait_for_callback_handler"] = handler
+    for k, v, s in eng.run(P.func(q), [ctx, submitter, name, cfg], st=st):
+        chk.paths += 1
+        r = [e for e in s.trace if e.kind == "run_in_child_context"]
+        h = [e for e in s.trace if e.kind == "wfc_handler"]
+        ok = k == "val" and len(r) == 1 and len(h) == 1 and not r[0].extra and len(h[0].args) == 4 and not h[0].kwargs
+        goal = z3.BoolVal(ok)
+        if ok:
+            a = h[0].args
+            goal = z3.And(goal, z3.BoolVal(a[0] == s.ghost.get("child") and a[1] is submitter and a[3] == cfg), ops.values_equal(s, a[2], r[0].name),
+                          z3.Implies(z3.Length(name.t) > 0, ops.values_equal(s, r[0].name, name)))
+        chk.prove(f"{prefix}.wfcb.method", s.pc, goal,
+                  desc="wait_for_callback(submitter, name, config) runs exactly one child context named by the resolved name (`name` when it is non-empty, else the submitter's original name; one id of this context) whose body is wait_for_callback_handler(child context, submitter, name, config), and returns its value")
+    return eng
